@@ -202,6 +202,7 @@ pub fn derive_cfg(job: &Job) -> SimCfg {
         big_docs: r.chance(1, 10),
         config_errors: false,
         big_dict: Rng::derive(job.seed, "bigdict-cfg").chance(1, 3),
+        hostile_uris: job.prop == "C10" && Rng::derive(job.seed, "hostile-uris").chance(1, 6),
     };
     if job.prop == "C09" && r.chance(1, 8) {
         // an editor without workspace/configuration support: every pull is answered with an error
@@ -345,11 +346,19 @@ impl<'j> Sim<'j> {
                 content.push_str(nl);
             }
             let path = oracle::user_dict_path(&client.settings);
+            // the dictionary may be a symbolic link into the user's dotfiles
+            let via_link = Rng::derive(job.seed, "symlink-dict").chance(1, 4);
             seam::as_harness(|| {
                 if let Some(parent) = std::path::Path::new(&path).parent() {
                     let _ = std::fs::create_dir_all(parent);
                 }
-                let _ = std::fs::write(&path, content.as_bytes());
+                if via_link {
+                    let _ = std::fs::create_dir_all("w/home/dotfiles");
+                    let _ = std::fs::write("w/home/dotfiles/harper-words.txt", content.as_bytes());
+                    let _ = std::os::unix::fs::symlink(format!("{WORLD}/home/dotfiles/harper-words.txt"), &path);
+                } else {
+                    let _ = std::fs::write(&path, content.as_bytes());
+                }
             });
             preexisting.push((path, words));
         }
